@@ -873,7 +873,13 @@ func releasedBetween(fn *ssa.Function, lock ssa.CallInstruction, at ssa.Instruct
 }
 
 // ruleSharedWrite: no unsynchronised write to long-lived state on the request path.
-func ruleSharedWrite(p *Program, r *Result) {
+func ruleSharedWrite(p *Program, r *Result) { ruleSharedWriteOpt(p, r, false) }
+
+// ruleSharedWriteOpt: with sessionsApart (C09) a write on the request path into state that outlives the connection
+// is reported even when it is properly locked: the lock makes it race-free, but the object is still a place where
+// one session's data meets another's (a table keyed by session id alone, a cache keyed by user name, ...).
+// Metrics, loggers and the library's thread-safe types are not written through this rule at all.
+func ruleSharedWriteOpt(p *Program, r *Result, sessionsApart bool) {
 	rp := p.requestPath()
 	var fns []*ssa.Function
 	for f := range rp {
@@ -933,7 +939,9 @@ func ruleSharedWrite(p *Program, r *Result) {
 							ord++
 							key := fmt.Sprintf("%s:%s#%d", fnKey(fn), strings.Fields(what)[0], ord)
 							ex, _ := heldLock(fn, in)
-							if ex {
+							if ex && sessionsApart {
+								r.bad("R-CONFINED", key+":state-shared-by-sessions", p.Pos(in.Pos()), "%s on the request path through parameter %s, which %s passes long-lived state for (.%s): the lock makes it race-free, but every connection writes into this one object, so what one session stores there can be read or overwritten by another", what, root.Name(), where, strings.Join(path, "."))
+							} else if ex {
 								r.ok("R-SHAREDWRITE", key, p.Pos(in.Pos()), true, "%s through parameter %s under an exclusive lock", what, root.Name())
 							} else {
 								r.bad("R-SHAREDWRITE", key, p.Pos(in.Pos()), "unsynchronised %s on the request path through parameter %s, which %s passes long-lived state for (.%s): connection goroutines share that object, so this is a data race", what, root.Name(), where, strings.Join(path, "."))
@@ -963,6 +971,10 @@ func ruleSharedWrite(p *Program, r *Result) {
 					continue
 				}
 				ex, _ := heldLock(fn, in)
+				if ex && sessionsApart {
+					r.bad("R-CONFINED", key+":state-shared-by-sessions", p.Pos(in.Pos()), "%s on the request path to long-lived state: %s (.%s): the lock makes it race-free, but every connection writes into this one object, so what one session stores there can be read or overwritten by another", what, desc, strings.Join(path, "."))
+					continue
+				}
 				if ex {
 					r.ok("R-SHAREDWRITE", key, p.Pos(in.Pos()), true, "%s to %s under an exclusive lock taken in this function", what, desc)
 					continue
@@ -1256,6 +1268,16 @@ func callersPassLocal(p *Program, rp map[*ssa.Function]bool, fn *ssa.Function, p
 				}
 			}
 		case k == rootForeign && (isConfinedType(root.Type()) || freshCallResult(p, root, 3)):
+			// a pointer kept in a per-session object is only as private as what it points at: a pointer field
+			// whose pointee type is not itself per-session may hold an object every session shares (a table
+			// handed to each handler by its constructor)
+			if isConfinedType(root.Type()) && pathHasDeref(apath) {
+				if pt, isPtr := args[ai].Type().Underlying().(*types.Pointer); isPtr && !isConfinedType(pt.Elem()) && !isSyncOrChan(pt.Elem()) {
+					if _, isStruct := pt.Elem().Underlying().(*types.Struct); isStruct && namedOf(pt.Elem()) != nil && isModulePath(namedOf(pt.Elem()).Obj().Pkg().Path()) {
+						return false, fmt.Sprintf("%s (at %s), through a pointer field of the per-session %s whose pointee (%s) is not a per-session type", fnKey(caller), p.Pos(e.Site.Pos()), typeName(root.Type()), typeName(pt.Elem()))
+					}
+				}
+			}
 		case k == rootForeign && paramIndex(caller, root) >= 0:
 			if ok, where := callersPassLocal(p, rp, caller, paramIndex(caller, root), depth-1, deref || pathHasDeref(apath)); !ok {
 				return false, where
